@@ -38,6 +38,8 @@ pub enum QOp {
     /// produce (and drop) a rendering of the queue: 0 Debug, 1 text form, 2 JSON, 3 JSON into a
     /// writer that fails after `limit` bytes, 4 serde_json::Value. None of them is a queue operation.
     Render(u8, u16),
+    /// push again the very allocation (`Arc`) that an earlier remove(id) handed back
+    Repush(u16),
 }
 
 #[derive(Clone, Debug, PartialEq, Eq, Hash, Serialize, Deserialize)]
@@ -62,6 +64,7 @@ fn qcase(max_len: usize) -> BoxedStrategy<QCase> {
         2 => proptest::sample::select(vec![Build::FromVec, Build::From, Build::Text, Build::Json]).prop_map(QOp::Rebuild),
         1 => gen::size_class(17).prop_map(QOp::Stale),
         3 => (0u8..5, any::<u16>()).prop_map(|(k, l)| QOp::Render(k, l)),
+        2 => any::<u16>().prop_map(QOp::Repush),
     ];
     (gen::id_pool(3, 8), proptest::collection::vec(op, 0..=max_len))
         .prop_map(|(pool, ops)| QCase { pool, ops })
@@ -80,6 +83,12 @@ pub fn eval(c: &QCase, st: &mut Stats, excuse_kf: bool) -> Result<Outcome, Strin
     let mut model: Vec<Order> = Vec::new();
     // ids whose ticket may still be in the queue although the order was removed by id
     let mut stale: HashSet<OrderId> = HashSet::new();
+    // the queue's documented ticket FIFO (order_queue.rs: every push queues the id, remove(id)
+    // leaves the ticket, pop drops tickets of ids that are not queued), tracked exactly: the known
+    // finding KF-C19-1 excuses a pop only if it is the one this FIFO yields
+    let mut tickets: std::collections::VecDeque<OrderId> = std::collections::VecDeque::new();
+    // handles given back by remove(id), for re-pushing the very same allocation
+    let mut handed_back: Vec<Arc<Order>> = Vec::new();
     let mut kf_hits = 0u64;
     let mut removed_then_pop = false;
     let mut had_remove = false;
@@ -106,6 +115,7 @@ pub fn eval(c: &QCase, st: &mut Stats, excuse_kf: bool) -> Result<Outcome, Strin
                 let o = spec.build(id, *price);
                 catch(|| q.push(Arc::new(o))).map_err(|m| format!("push panicked: {m}"))?;
                 model.push(o);
+                tickets.push_back(id);
                 if !ever.insert(id) {
                     repush = true;
                 }
@@ -117,6 +127,16 @@ pub fn eval(c: &QCase, st: &mut Stats, excuse_kf: bool) -> Result<Outcome, Strin
                 if had_remove {
                     removed_then_pop = true;
                 }
+                // what the ticket FIFO yields: the first ticket whose id is queued (consumed with
+                // every ticket in front of it)
+                let live: HashSet<IdKey> = model.iter().map(|o| id_key(o.id())).collect();
+                let mut by_tickets: Option<OrderId> = None;
+                while let Some(t) = tickets.pop_front() {
+                    if live.contains(&id_key(t)) {
+                        by_tickets = Some(t);
+                        break;
+                    }
+                }
                 match (got, model.first().copied()) {
                     (None, None) => {}
                     (Some(g), Some(f)) if g == f => {
@@ -124,14 +144,15 @@ pub fn eval(c: &QCase, st: &mut Stats, excuse_kf: bool) -> Result<Outcome, Strin
                     }
                     (Some(g), Some(_)) => {
                         // known stale-ticket deviation: a re-pushed id whose earlier incarnation was
-                        // removed by id is handed out ahead of older orders
+                        // removed by id is handed out ahead of older orders - and it is exactly the
+                        // order the ticket FIFO yields
                         let pos = model.iter().position(|o| *o == g);
                         match pos {
-                            Some(i) if excuse_kf && stale.contains(&g.id()) => {
+                            Some(i) if excuse_kf && stale.contains(&g.id()) && by_tickets.map(id_key) == Some(id_key(g.id())) => {
                                 kf_hits += 1;
                                 model.remove(i);
                             }
-                            Some(_) => return fail(format!("pop returned {} but the earliest pushed queued order is {}", brief(&g), brief(&model[0]))),
+                            Some(_) => return fail(format!("pop returned {} but the earliest pushed queued order is {}{}", brief(&g), brief(&model[0]), if stale.contains(&g.id()) { " (and the stale ticket of a removed id does not explain it)" } else { "" })),
                             None => return fail(format!("pop returned {} which is not queued", brief(&g))),
                         }
                     }
@@ -150,7 +171,13 @@ pub fn eval(c: &QCase, st: &mut Stats, excuse_kf: bool) -> Result<Outcome, Strin
             }
             QOp::Remove(i) => {
                 let id = pool[pick(*i, pool.len())];
-                let got = catch(|| q.remove(id)).map_err(|m| format!("remove panicked: {m}"))?.map(|a| *a);
+                let got_arc = catch(|| q.remove(id)).map_err(|m| format!("remove panicked: {m}"))?;
+                let got = got_arc.as_ref().map(|a| **a);
+                if let Some(a) = got_arc {
+                    if handed_back.len() < 64 {
+                        handed_back.push(a);
+                    }
+                }
                 let pos = model.iter().position(|o| o.id() == id);
                 let want = pos.map(|p| model[p]);
                 st.count("queue_op/remove");
@@ -184,6 +211,23 @@ pub fn eval(c: &QCase, st: &mut Stats, excuse_kf: bool) -> Result<Outcome, Strin
                         model.iter().map(brief).collect::<Vec<_>>().join(", ")
                     ));
                 }
+            }
+            QOp::Repush(i) => {
+                if handed_back.is_empty() {
+                    continue;
+                }
+                let k = pick(*i, handed_back.len());
+                let a = handed_back[k].clone();
+                if model.iter().any(|o| o.id() == a.id()) {
+                    continue;
+                }
+                handed_back.remove(k);
+                let o = *a;
+                catch(|| q.push(a)).map_err(|m| format!("push panicked: {m}"))?;
+                model.push(o);
+                tickets.push_back(o.id());
+                repush = true;
+                st.count("queue_op/repush_same_allocation");
             }
             QOp::Render(k, limit) => {
                 st.count("queue_op/render");
@@ -226,6 +270,7 @@ pub fn eval(c: &QCase, st: &mut Stats, excuse_kf: bool) -> Result<Outcome, Strin
                         extra_fields: (),
                     };
                     q.push(Arc::new(o));
+                    tickets.push_back(id);
                     let got = q.remove(id).map(|a| *a);
                     if got != Some(o) {
                         return fail(format!("remove of the order just pushed returned {:?}", got.as_ref().map(brief)));
@@ -272,6 +317,8 @@ pub fn eval(c: &QCase, st: &mut Stats, excuse_kf: bool) -> Result<Outcome, Strin
                 }
                 // a queue built from a list pops in input order
                 model = input_order;
+                tickets = model.iter().map(|o| o.id()).collect();
+                handed_back.clear();
                 stale.clear();
                 had_remove = false;
                 q = new_q;
@@ -285,13 +332,21 @@ pub fn eval(c: &QCase, st: &mut Stats, excuse_kf: bool) -> Result<Outcome, Strin
     // final drain: remaining orders come out in model order (modulo the known deviation)
     loop {
         let got = q.pop().map(|a| *a);
+        let live: HashSet<IdKey> = model.iter().map(|o| id_key(o.id())).collect();
+        let mut by_tickets: Option<OrderId> = None;
+        while let Some(t) = tickets.pop_front() {
+            if live.contains(&id_key(t)) {
+                by_tickets = Some(t);
+                break;
+            }
+        }
         match (got, model.first().copied()) {
             (None, None) => break,
             (Some(g), Some(f)) if g == f => {
                 model.remove(0);
             }
             (Some(g), Some(_)) => match model.iter().position(|o| *o == g) {
-                Some(i) if excuse_kf && stale.contains(&g.id()) => {
+                Some(i) if excuse_kf && stale.contains(&g.id()) && by_tickets.map(id_key) == Some(id_key(g.id())) => {
                     kf_hits += 1;
                     model.remove(i);
                 }
